@@ -282,6 +282,26 @@ def d2(ctx, prog):
                 if not isinstance(got, list) or not all(isinstance(x, int) for x in got):
                     eund = 'the enumeration does not return a list of integers'
                     break
+                # the candidates are handed back as 8 key bytes each, most significant byte first
+                if r == 0 and pi == 0:
+                    rets = [n_ for n_ in ast.walk(f.node) if isinstance(n_, ast.Return) and n_.value is not None]
+                    calls_ = [n_ for n_ in ast.walk(f.node) if isinstance(n_, ast.Assign) and isinstance(n_.value, ast.Call) and isinstance(n_.value.func, ast.Name) and n_.value.func.id == conv.name
+                              and isinstance(n_.targets[0], ast.Name)]
+                    if len(rets) == 1 and len(calls_) == 1:
+                        rv = rets[0].value
+                        inner = rv.args[0] if isinstance(rv, ast.Call) and norm(rv.func).split('.')[-1] in ('array', 'asarray') and rv.args else rv
+                        try:
+                            rows = cf.Interp(prog, max_steps=2000000).ev(inner, {calls_[0].targets[0].id: cf.TList(got)}, f.mod, f, 0)
+                            wantb = [[(g_ >> (8 * (7 - i_))) & 0xFF for i_ in range(8)] for g_ in got]
+                            rows = [list(x) for x in rows] if isinstance(rows, list) else None
+                            if rows != wantb:
+                                first = next((i_ for i_ in range(min(len(rows or []), len(wantb))) if rows[i_] != wantb[i_]), 0)
+                                ebad.append(f'the candidate {got[first]:#018x} is handed back as bytes {rows[first] if rows and first < len(rows) else None}, not {wantb[first]} (8 bytes, most significant first)')
+                        except cf.Unknown as e:
+                            eund = f'byte conversion of the candidates: {e}'
+                            break
+                        except cf.Raised as e:
+                            ebad.append(f'byte conversion of the candidates raises {e.kind}')
                 if set(got) != want or len(got) != len(want):
                     miss = sorted(want - set(got))
                     ebad.append(f'round index {r} (known bits pattern {pi}): {len(set(got))} distinct candidates returned for {len(unknown)} unknown bits, expected {len(want)}'
@@ -602,6 +622,59 @@ def run(ctx, prog):
         ctx.undecided('C10-D3', f'{ks.key}::reshape', f'key_schedule not evaluable: {und}', ks.where())
     else:
         ctx.check(not bad, 'C10-D3', f'{ks.key}::reshape', bad[0] if bad else '', 'key_schedule = full forward expansion from column 0, reshaped to ([keys,] rounds, 16) for the three key sizes', ks.where())
+    # inv_key_schedule(round key, round_in): backward expansion from the window of round `round_in` down to column 0, its first 16
+    # bytes (the AES-128 master key), then the full schedule
+    iks = prog.func(A, 'inv_key_schedule')
+    if iks is not None:
+        bad, und = [], None
+        for r_in in [None] + list(range(0, 11)):
+            it = cf.Interp(prog)
+            it.opaque_funcs = {ke.key, ks.key}
+            keysym = cf.Sym('roundkey', attrs={'shape': (cf.Sym('n'), 16), 'ndim': 2})
+            kw_ = {iks.params[0]: keysym}
+            if r_in is not None:
+                kw_[iks.params[1]] = r_in
+            try:
+                r = it.call(iks, kwargs=kw_)
+            except cf.Unknown as e:
+                und = str(e)
+                break
+            except cf.Raised as e:
+                bad.append(f'round_in={r_in} refused ({e.kind})')
+                continue
+            eff = 10 if r_in is None else r_in
+            ok = isinstance(r, cf.Sym) and r.term and r.term[0] == 'call' and r.term[1] == ks.name and len(r.term[2]) + len(r.term[3]) == 1
+            why = 'the result is not key_schedule(<master key>)'
+            if ok:
+                arg = r.term[2][0] if r.term[2] else r.term[3][0][1]
+                # peel  E.swapaxes(0, -1)[:16].swapaxes(0, -1)   or   E[..., :16]
+                core = None
+                if getattr(arg, 'method', None) == 'swapaxes' and isinstance(arg.recv, cf.Sym) and arg.recv.term and arg.recv.term[0] == 'index':
+                    inner, idx = arg.recv.term[1], arg.recv.term[2]
+                    if idx == slice(None, 16, None) and getattr(inner, 'method', None) == 'swapaxes':
+                        sw1, sw2 = tuple(arg.term[2]), tuple(inner.term[2])
+                        if sorted(sw1) == [-1, 0] and sorted(sw2) == [-1, 0]:
+                            core = inner.recv
+                elif isinstance(arg, cf.Sym) and arg.term and arg.term[0] == 'index' and arg.term[2] in ((Ellipsis, slice(None, 16, None)), (slice(None, None, None), slice(None, 16, None))):
+                    # the expansion is always (keys, bytes): `[:, :16]` and `[..., :16]` both cut the last axis
+                    core = arg.term[1]
+                ok = core is not None
+                why = 'the master key is not the first 16 bytes (last axis) of the backward expansion'
+                if ok:
+                    t = core.term
+                    kwd = dict(t[3]) if t and t[0] == 'call' else {}
+                    pos = list(t[2]) if t and t[0] == 'call' else []
+                    ok = bool(t) and t[0] == 'call' and t[1] == ke.name and (pos[:1] == [keysym] or kwd.get(ke.params[0]) == keysym) \
+                        and kwd.get('col_in', pos[1] if len(pos) > 1 else None) == 4 * eff and kwd.get('col_out', pos[2] if len(pos) > 2 else None) == 0
+                    why = f'the expansion is asked from column {kwd.get("col_in")} to column {kwd.get("col_out")}, not from column {4 * eff} (round {eff}) back to column 0'
+            if not ok:
+                bad.append(f'round_in={r_in}: {why}')
+        kk = f'{iks.key}::backward to the master key'
+        if und:
+            ctx.undecided('C10-D3', kk, f'inv_key_schedule not evaluable: {und}', iks.where())
+        else:
+            ctx.check(not bad, 'C10-D3', kk, f'{bad[0] if bad else ""} ({len(bad)} of 12 round positions)',
+                      'inv_key_schedule = key_schedule(first 16 bytes of key_expansion(round key, col_in=4*round_in, col_out=0)) for round_in 0..10 and the default', iks.where())
     ctx.floor('AES window configurations evaluated', n_cfg, 500)
     if not d4_decided:
         ctx.floor('AES expansion rule obligations', n, 8)
